@@ -11,7 +11,7 @@ from emmet.css_matcher.parse import split_value
 
 PROP_ID = 'C16'
 RULE = ("case = (language, source string[, xml flag]); every position −1..len+1 is tried (for sources > 80 chars a deterministic subset). "
-        "Layers: every string over the 17-symbol HTML / 19-symbol CSS punctuation alphabet up to a length bound (exhaustive), Hypothesis strings "
+        "Layers: every string over the 17-symbol HTML / 19-symbol CSS punctuation alphabet up to a length bound (exhaustive), every attribute fragment ≤ 5 (6) over the symbols { [ ( < * # a blank double-quote single-quote = } for the attribute parser (exhaustive), Hypothesis strings "
         "≤ 40 over the alphabets + multi-character tokens (comments, CDATA, PI, script/style, url(, #{ …), ≤3-edit mutants and all truncations "
         "of valid documents (repo samples, generated documents). Oracle: no exception, CPU watchdog quiet, every reported range 0 ≤ start ≤ end ≤ len; "
         "HTML scan tags start with `<`, end with `>`, carry their name after `<`/`</`, increasing and non-overlapping; HTML match == "
@@ -253,7 +253,40 @@ def check_css_x(case, rec):
 
 
 SHRINK = {'html', 'css', 'html-x', 'css-x'}
-CHECKS = {'html': check_html, 'css': check_css, 'html-x': check_html_x, 'css-x': check_css_x}
+def check_attrs_x(case, rec):
+    "the attribute parser alone, on a fragment over its own alphabet (Angular markers `*` `#`, all bracket kinds, quotes)"
+    src = case['src']
+    n = len(src)
+    rec.evals()
+    try:
+        with guard():
+            at = hattrs(src)
+    except Exception as e:
+        rec.fail(core.exc_bucket(e, 'exc:html.attributes'), '%s: %s' % (type(e).__name__, e))
+        return
+    if at:
+        rec.nontrivial(distinct=True)
+    for t in at:
+        if not ok_range(t.name_start, t.name_end, n) or src[t.name_start:t.name_end] != t.name:
+            rec.fail('html.attributes:name-range', 'fragment %r: name %r range (%r,%r)' % (src, t.name, t.name_start, t.name_end))
+            return
+        if t.value is not None:
+            if not ok_range(t.value_start, t.value_end, n) or src[t.value_start:t.value_end] != t.value or t.value_start < t.name_end:
+                rec.fail('html.attributes:value-range', 'fragment %r: value %r range (%r,%r)' % (src, t.value, t.value_start, t.value_end))
+                return
+        elif t.value_start is not None or t.value_end is not None:
+            rec.fail('html.attributes:value-range', 'fragment %r: no value but offsets (%r,%r)' % (src, t.value_start, t.value_end))
+            return
+
+
+ATTR_ALPHA = list("{[(<*#a \"'=}")
+
+
+def shard_attr_fragments(ctx, shard, nshards, maxlen):
+    ctx.run_cases('attrs-x', ({'src': s} for s in core.sharded(core.all_strings(ATTR_ALPHA, maxlen), shard, nshards)))
+
+
+CHECKS = {'html': check_html, 'css': check_css, 'html-x': check_html_x, 'css-x': check_css_x, 'attrs-x': check_attrs_x}
 
 HTML_SEEDS = ['<a><b></b></a>', '<div class="a" id=b><br><img src="x>y"/></div>', '<!-- <a> --><p>t</p>', '<![CDATA[<a>]]><b/>',
               '<?php echo "?>" ?><a></a>', '<script>if (a<b) {}</script><i></i>', '<style type="x">a{}</style>', '<script type="text/x-tpl"><b></b></script>',
@@ -339,6 +372,9 @@ def shard_hyp(ctx, shard, nshards, n):
 
 
 def run(ctx):
+    AL = ctx.pick(5, 6)
+    ctx.run_parallel('shard_attr_fragments', extra=(AL,))
+    ctx.exhaustive('every attribute fragment of length ≤ %d over %r (attribute parser ranges)' % (AL, ''.join(ATTR_ALPHA)))
     H = ctx.pick(4, 5)
     ctx.run_parallel('shard_exhaustive', extra=('html', H))
     ctx.exhaustive('every string of length ≤ %d over the HTML alphabet (%d symbols) × every position −1..len+1' % (H, len(A.HTML_DOC)))
